@@ -53,9 +53,28 @@ Qed.
 Theorem copy_array_exact {A} (l : list A) chunks out : copy_array l chunks = Ok out -> out = l.
 Proof.
   unfold copy_array. destruct chunks as [c|]; [|intros H; inversion H; reflexivity].
+  destruct (length l <? c); [intros H; inversion H; reflexivity|].
   destruct (chunk_ok (length l) c) eqn:E; [|discriminate]. intros H. inversion H; subst.
   apply range_chunks_cover. unfold chunk_ok in E. apply andb_true_iff in E. destruct E as [E _].
   apply Nat.ltb_lt in E. lia.
+Qed.
+
+(* ... and it is accepted for every array - the empty one included, which used to be
+   refused (finding F-copy-layer-empty-sparse) - and every chunk shape HDF5 can report
+   (a chunk dimension is at least 1) *)
+Theorem copy_array_total {A} (l : list A) chunks :
+  (forall c, chunks = Some c -> 1 <= c) -> copy_array l chunks = Ok l.
+Proof.
+  intros Hc.
+  assert (E : exists out, copy_array l chunks = Ok out).
+  { unfold copy_array. destruct chunks as [c|]; [|eexists; reflexivity].
+    specialize (Hc c eq_refl).
+    destruct (length l <? c) eqn:E1; [eexists; reflexivity|]. apply Nat.ltb_ge in E1.
+    unfold chunk_ok.
+    replace (0 <? c) with true by (symmetry; apply Nat.ltb_lt; lia).
+    replace (c <=? length l) with true by (symmetry; apply Nat.leb_le; exact E1).
+    cbn [andb]. eexists; reflexivity. }
+  destruct E as (out & E). rewrite E. f_equal. exact (copy_array_exact l chunks out E).
 Qed.
 
 Theorem copy_dense_exact (d : dense) nr nc chunks out :
